@@ -98,6 +98,7 @@ def symbolic_keys(site: int, k: str, allow: bool) -> bool:
 
 
 # ---- every class x every slot x concrete junk of every JSON kind, at top level and inside embedded objects / extensions
+EXTDEF = "extension-definition--311b2d2d-f010-4473-83ec-1edf84858f4c"
 JUNK = [None, 0, -1, 3.5, "", "x", True, [], [0], ["x"], {}, {"a": 1}, [{"a": "b"}], {"a": {"b": 1}}, [[1]], {"": ""}, [{"": ""}], [None], {"a": None},
         False, "toplevel-property-extension", {"extension_type": "toplevel-property-extension"}, {"x-a-ext": {"extension_type": "toplevel-property-extension"}},
         {"extension-definition--311b2d2d-f010-4473-83ec-1edf84858f4c": 5}, {"extension-definition--311b2d2d-f010-4473-83ec-1edf84858f4c": {"extension_type": 7}},
@@ -105,6 +106,11 @@ JUNK = [None, 0, -1, 3.5, "", "x", True, [], [0], ["x"], {}, {"a": 1}, [{"a": "b
         [{"selectors": [5]}], [{"selectors": 5, "marking_ref": "x"}], [{"selectors": [None, {}, ["name"]], "lang": 5}], [{"marking_ref": ["x"], "selectors": "name"}],
         # text that is hostile to message formatting, as value and as dictionary key
         "{x}", "%s %(a)s", {"{x}": "v"}, {"{0.x}": 1}, {"{1}": [1]}, {"%s": 1}, {"%(a)s": {"{": "}"}}, [{"{x}": "{y}"}], {"a{}b": ["{0}"]}, ["{0!r:>{1}}"],
+        # nulls and empty containers below the first level of a dictionary value; entries of an unregistered extension-definition
+        {"abc": []}, {"abc": {"x": None}}, {"abc": {}}, {"abc": [None]}, {"abc": [[]]}, {"abc": [{"k": {}}]},
+        {EXTDEF: {}}, {EXTDEF: {"extension_type": "bogus"}}, {EXTDEF: {"extension_type": "property-extension", "x": None}}, {EXTDEF: {"extension_type": "property-extension", "x": {"y": []}}},
+        {EXTDEF: {"a": 1}}, {EXTDEF: {"extension_type": ["property-extension"]}}, {EXTDEF: [{"extension_type": "property-extension"}]}, {EXTDEF: "property-extension"},
+        {EXTDEF: {"extension_type": "toplevel-property-extension"}, "x-a-ext": {"a": 1}},
         # integers no double is near (number-typed and id-contributing properties are canonicalized as ECMAScript numbers)
         10 ** 400, [-(10 ** 310)]]
 # values nested deeper than the interpreter's recursion limit (kept out of JUNK itself: repr/deepcopy/json.dumps of them recurse too)
